@@ -983,6 +983,11 @@ def run(prog, tier, extra=None):
                 res.sample({"rule": R7, "variant": var, "field": k, "bytes": "%d..%d" % (w[k][0], w[k][0] + w[k][1])})
             else:
                 res.not_decided.append("Message::%s field %d: %s side not recognised" % (var, k, "reader" if k in w else "writer"))
+    # a lite block goes through the same Block codec; what it keeps of the header decides whether the hash recomputed after the round
+    # trip is still the one it claims (C18.header, cross-listed)
+    from ._include import include
+    include(res, prog, tier, extra, "c18", ["C18.header"],
+            "the header a lite block is serialised with is the full block's header, field by field: otherwise the decoded block re-hashes to something else")
     res.explanation = (
         "Decides layout agreement between sibling encoders and decoders: for each codec pair the ordered (field, width) segments of the writer's concat aggregate and the "
         "constant ranges the reader initialises each field from must coincide on the fixed-layout prefix; size constants equal that prefix; the Message tag table is "
